@@ -163,7 +163,13 @@ def replace_ref(text, oldvalue, newvalue="n/a"):
     # p1/p2 contain the parentheses directly surrounding the tag
     # All four groups can have spaces.
     pattern = r'(?P<c1>[\s,]*)(?P<p1>[(\s]*)' + oldvalue + r'(?P<p2>[\s)]*)(?P<c2>[\s,]*)'
-    return re.sub(pattern, _remover, text)
+    # Remove one occurrence at a time: adjacent occurrences share a separator, which a single pass would hand to
+    # the first match only.
+    while True:
+        new_text = re.sub(pattern, _remover, text, count=1)
+        if new_text == text:
+            return text
+        text = new_text
 
 
 def _handle_curly_braces_refs(df, refs, column_names):
